@@ -494,6 +494,9 @@ def gen_values(rng, tier, hist, per_kind=None):
             for _ in range(4):
                 out.append((kind, g.value(kind, big=True)))
     out += big_incompressible(rng, tier, hist)
+    # the witnesses of the Lean `_counterexample` theorems, replayed on the real library on every run
+    out.append(("v1.track", dict(sr="3ff0000000000000", sc=255, loud=None, key=0)))     # C03_v1_track_roundtrip_counterexample
+    out.append(("v1.beat", dict(sr=NEGZERO, sc=None, dflt=[], adj=[])))                  # C03_v1_beat_roundtrip_counterexample
     return out
 
 
